@@ -2,7 +2,7 @@
 (* The implementation-shaped transpose on every configuration of the LayoutBox (or a TLC-drawn sample), every ordered       *)
 (* (source, destination) pair whose route has at most three hops, every such route, with and without spare buffer.          *)
 (* One behaviour per case:  cfg chosen -> [Pack -> Exchange -> Unpack] per hop -> (final copy) -> done.                    *)
-EXTENDS Transpose, LayoutBox
+EXTENDS Transpose, LayoutBox, Json, SequencesExt
 CONSTANTS ND, MaxExt, MaxP, MaxLay, SampleK, SampleNDs, SampleExt, SampleLay
 VARIABLES cfg,      \* [nd, sh, np, lays] as in LayoutBox, plus src, route, usebuf
           arr,      \* rank coordinate tuple -> [S, D, B] flat arrays (or Error)
@@ -106,4 +106,11 @@ DestCorrect == (stage = 2 /\ sub = "done") =>
 SourceIntact == (stage = 2 /\ sub = "done" /\ cfg.usebuf) =>
     \A rc \in Ranks : LET was == Holds(cfg.sh, cfg.src, P, rc, 0) IN
         ~IsError(arr[rc].S) /\ \A i \in 1..Len(was) : arr[rc].S[i] = was[i]
+
+(* ---- wire-level binding: what every rank hands to Alltoall in the first hop (recorded from the real code and compared) ---- *)
+DumpWire == (stage = 2 /\ sub = "xchg" /\ k = 1) =>
+    PrintT("ROW " \o ToJson([sh |-> cfg.sh, np |-> cfg.np, of |-> H.of, ot |-> H.ot,
+        ranks |-> LET rs == SetToSeq(Ranks) IN
+                  [i \in 1..Len(rs) |-> LET rc == rs[i] size == XchgSize(cfg.sh, H.of, H.ot, P, cfg.np, rc) snd == arr[rc][H.t] IN
+                      [rc |-> rc, size |-> size, send |-> IF IsError(snd) \/ size > Len(snd) THEN <<>> ELSE SubSeq(snd, 1, size)]]]))
 =============================================================================
